@@ -1170,6 +1170,23 @@ func (r *run) classes() []string {
 	for _, m := range s.Misuse {
 		cl = append(cl, "misuse="+m.Op)
 	}
+	pipe, part := false, false
+	for _, c := range s.Clients {
+		pipe = pipe || c.Pipeline
+		part = part || (c.Partial > 0 && c.Close == "end" && s.stream())
+	}
+	if pipe {
+		cl = append(cl, "client-pipelined")
+	}
+	if part {
+		cl = append(cl, "client-partial-frame")
+	}
+	for _, n := range names {
+		if n == "alien.request" || n == "alien.reply" {
+			cl = append(cl, "alien-traffic-ignored")
+			break
+		}
+	}
 	call := -1
 	for i, n := range names {
 		if n == "shutdown.call" {
